@@ -42,3 +42,33 @@ package arch
 //
 //@ inline func writeScripts(w io.Writer, scripts map[string]string) (err error)
 //@   loop 0 unroll 7
+//
+//@ import "strings"
+//@ import "strconv"
+//
+//@ spec func archOf(arch, override string) string {
+//@     if override != "" { return override }
+//@     return docArch(arch)
+//@ }
+//
+//@ spec func pkgrelOf(release string) int {
+//@     n, err := strconv.Atoi(release)
+//@     if err != nil { return 1 }
+//@     return n
+//@ }
+//
+//@ spec func archlinuxVersion(version, prerelease string) string {
+//@     return version + strings.ReplaceAll(prerelease, "-", "_")
+//@ }
+//
+//@ func ensureValidArch(info *nfpm.Info) (result *nfpm.Info)
+//@   requires info != nil
+//@   ensures [C02 C15] documented-table-or-override: implies(old(info.ArchLinux.Arch) != "" || old(info.Arch) != "all", info.Arch == archOf(old(info.Arch), old(info.ArchLinux.Arch)))
+//@   ensures [C11 C15] idempotent: implies(old(info.ArchLinux.Arch) == "", docArch(info.Arch) == info.Arch || info.Arch == "any")
+//@   ensures [C11] same-object: result == info
+//@   modifies [C11 C12] &info.Arch
+//
+//@ func (a ArchLinux) ConventionalFileName(info *nfpm.Info) (result string)
+//@   requires info != nil
+//@   ensures [C15 C14 C02] name: result == validPkgName(old(info.Name) + "-" + archlinuxVersion(old(info.Version), old(info.Prerelease)) + "-" + strconv.Itoa(pkgrelOf(old(info.Release))) + "-" + info.Arch + ".pkg.tar.zst")
+//@   modifies [C11 C12] &info.Arch
